@@ -99,6 +99,16 @@ class Ctx:
                 tail = parts[i:]
                 if len(tail) == 1 and tail[0] in m.functions:
                     return m.functions[tail[0]], m, None
+                if len(tail) == 1 and tail[0] in m.imports:
+                    # moved to another module of the program and imported back under its name: the definition there
+                    try:
+                        r = m.resolve(ast.Name(id=tail[0], ctx=ast.Load()))
+                    except Exception:
+                        r = None
+                    if isinstance(r, ast.FunctionDef):
+                        rm = next((x for x in self.program.modules.values() if r in x.functions.values()), None)
+                        if rm is not None:
+                            return r, rm, None
                 if len(tail) == 2 and tail[0] in m.classes and tail[1] in m.classes[tail[0]].methods:
                     c = m.classes[tail[0]]
                     return c.methods[tail[1]], m, c
